@@ -22,8 +22,8 @@ ASSUMPTIONS = TRUSTED_BASE + [
     "-- this is the contract C09 assumes of engine.dump_phasepoint",
     "in every frame loop: no frame is offered to add_to_path after it reported `stop` (the loop leaves), and the success flag the loop ends with is the outcome of the last frame -- together with the proved add_to_path rule this is "
     "'stops at the first frame outside the interfaces or at the length limit and reports success only in the former case' for the Python drivers",
-    "the RESULT contract that the move logic (C09/C11) ASSUMES of engine.propagate -- all frames but the last inside [left, right], never longer than maxlen, success iff the last frame is outside and the path is not full -- is PROVED for the real GROMACS frame loop and the real ASE in-process loop "
-    "with the heap model of Path/System and add_to_path replaced by its proved contract; for the other engines it follows from the same three facts (proved add_to_path rule, no frame after a stop, success = last outcome) but is not re-derived per loop; "
+    "the RESULT contract that the move logic (C09/C11) ASSUMES of engine.propagate -- all frames but the last inside [left, right], never longer than maxlen, success iff the last frame is outside and the path is not full -- is PROVED for the frame loops of all five in-repo engines (GROMACS, ASE, TurtleMD; LAMMPS and CP2K per poll, with the loop's own exit state as the handover state of the next poll) "
+    "with the heap model of Path/System and add_to_path replaced by its proved contract; "
     "'the first frame is the given phase point' depends on what the MD program writes as frame 0 and stays assumed",
     "NOT covered: the polling / waiting code around those loops, GromacsRunner (generator with try/except), process clean-up of GROMACS, retrace-under-time-reversal (engine property)",
 ]
@@ -49,6 +49,10 @@ def jobs(tier):
                 "clause": "the RESULT contract of propagate derived for the real GROMACS loop from the proved add_to_path rule: all frames but the last inside, never longer than maxlen, success iff the last frame is outside and the path is not full, frame k carries the order computed for frame k", "cost": 1, "parallel": 2}),
         ("e1", {"name": "ase_stop_rule", "registry": "contracts.engines_loops2", "key": "ASEEngine._propagate_from#stop_rule",
                 "clause": "the RESULT contract of propagate derived for the real ASE in-process loop from the proved add_to_path rule (all frames but the last inside, never longer than maxlen, success iff last frame outside and path not full, frame k carries the order computed for frame k)", "cost": 1, "parallel": 2}),
+        ("e1", {"name": "turtlemd_stop_rule", "registry": "contracts.engines_loops2", "key": "TurtleMDEngine._propagate_from#stop_rule", "clause": "propagate RESULT contract derived for the TurtleMD loop", "cost": 1, "parallel": 2}),
+        ("e1", {"name": "lammps_stop_rule", "registry": "contracts.engines_loops2", "key": "LAMMPSEngine._propagate_from#stop_rule",
+                "clause": "propagate RESULT contract derived for one poll of the LAMMPS consumption loop (the path holds the frames of earlier polls: handover state assumed on entry, re-established on exit)", "cost": 1, "parallel": 2}),
+        ("e1", {"name": "cp2k_stop_rule", "registry": "contracts.engines_loops2", "key": "CP2KEngine._propagate_from#stop_rule", "clause": "the same for one poll of the CP2K consumption loop", "cost": 1, "parallel": 2}),
         ("e1", {"name": "ase_frame_loop", "registry": "contracts.engines_loops2", "key": "ASEEngine._propagate_from#frames", "clause": "ASE: the order of phase point k is computed from the arrays written as file frame k (same dynamics version), stored as (traj, k)", "cost": 1, "parallel": 2}),
         ("e1", {"name": "turtlemd_frame_loop", "registry": "contracts.engines_loops2", "key": "TurtleMDEngine._propagate_from#frames", "clause": "TurtleMD: the xyz buffers written as frame k are refreshed from the current MD state, the order is computed from that same state, stored as (file, k)", "cost": 1, "parallel": 2}),
         ("e1", {"name": "lammps_consume_loop", "registry": "contracts.engines_loops", "key": "LAMMPSEngine._propagate_from#consume", "clause": "frame k uses its own data", "cost": 2, "parallel": 2}),
